@@ -14,7 +14,7 @@ use routee_compass_core::util::fs::{read_decoders, read_utils};
 use serde_json::{json, Value};
 use std::io::Write;
 
-fn write_file(path: &std::path::Path, content: &str, gzip: bool) {
+pub fn write_file(path: &std::path::Path, content: &str, gzip: bool) {
     if gzip {
         let f = std::fs::File::create(path).unwrap();
         let mut enc = GzEncoder::new(f, Compression::default());
